@@ -5,8 +5,8 @@ From WP Require Import Base.Prelude Base.Decimal Model.Cbor Model.Http Model.Url
 From WP Require Import Spec.Cbor Spec.Bundle.
 From WP Require Import Proofs.BaseLemmas Proofs.CborHead Proofs.CborMap Proofs.CborDecode Proofs.CborUtf8
   Proofs.Variants Proofs.BundleWriteBasics Proofs.BundleWriteSpec Proofs.BundleWriteSig
-  Proofs.BundleWriteForm Proofs.BundleWriteWF Proofs.BundleRoundtripRows
-  Proofs.BundleRoundtripResp Proofs.BundleRoundtripMeta Proofs.BundleRoundtripRead.
+  Proofs.BundleWriteForm Proofs.BundleWriteWF Proofs.BundleWriteCases Proofs.BundleRoundtripRows
+  Proofs.BundleRoundtripResp Proofs.BundleWriteOk Proofs.BundleRoundtripMeta Proofs.BundleRoundtripRead.
 Open Scope N_scope.
 
 (* ---- what the reader returns -------------------------------------------------------------------- *)
@@ -30,15 +30,14 @@ Section RT.
     forallb (fun a => x509_ok (ac_cert a)) (sg_auth s)
     && forallb (fun v => vs_authority v <? two64) (sg_vouched s).
 
-  Definition writable (b : bundle) : bool :=
-    negb (b_taint b)
-    && forallb (fun x => xwritable x && url_okb (bx_url x)) (b_exchanges b)
-    && (match b_ver b, b_primary b with
-        | BV1, Some u => any_okb u | BV1, None => false
-        | BV2, Some u => abs_okb u | BV2, None => true end)
-    && (match b_manifest b with
-        | Some u => (match b_ver b with BV1 => abs_okb u | BV2 => false end)
-        | None => true end)
+  (* What the writer does NOT check and the round trip still needs:
+     - negb (b_write_taint b): every URL the writer tested (exchange URLs, primary,
+       manifest) lies in the class on which the url.Parse model is decided; outside it
+       the model answers "unknown" for writer and reader alike (model restriction);
+     - the signatures section: every authority certificate is accepted by
+       x509.ParseCertificate (x509_ok), and Authority is a uint64 (Go type). *)
+  Definition residual (b : bundle) : bool :=
+    negb (b_write_taint b)
     && (match b_sigs b with Some s => sigs_okb s | None => true end).
 
   (* the signatures section reads back (proved from sigs_okb in BundleRoundtripSig.v) *)
@@ -340,22 +339,48 @@ Section RT.
   Definition man_cond (b : bundle) : Prop :=
     match b_manifest b with Some u => b_ver b = BV1 /\ abs_okb u = true | None => True end.
 
-  Lemma writable_parts (b : bundle) : writable b = true ->
-    b_taint b = false /\ xs_ok b /\ prim_cond b /\ man_cond b
+  Lemma index_decided (u : bytes) :
+    fst (index_url_ok u) = true -> snd (index_url_ok u) = false -> utf8_valid u = true -> url_okb u = true.
+  Proof.
+    unfold index_url_ok, url_okb. destruct (url_ref u) as [|a [|] [|]|]; cbn [fst snd negb andb]; congruence.
+  Qed.
+  Lemma abs_decided (u : bytes) :
+    fst (abs_url_ok u) = true -> snd (abs_url_ok u) = false -> utf8_valid u = true -> abs_okb u = true.
+  Proof.
+    unfold abs_url_ok, abs_okb. destruct (url_ref u) as [|[|] [|] [|]|]; cbn [fst snd negb andb]; congruence.
+  Qed.
+  Lemma any_decided (u : bytes) :
+    fst (any_url_ok u) = true -> snd (any_url_ok u) = false -> utf8_valid u = true -> any_okb u = true.
+  Proof.
+    unfold any_url_ok, any_okb. destruct (url_ref u); cbn [fst snd]; congruence.
+  Qed.
+
+  (* what a successful write together with the residue gives *)
+  Lemma written_parts (b : bundle) (bs : bytes) : b_write b = Ok bs -> residual b = true ->
+    xs_ok b /\ prim_cond b /\ man_cond b
     /\ (match b_sigs b with Some s => sigs_okb s = true | None => True end).
   Proof.
-    unfold writable, prim_cond, man_cond. intros H.
-    apply andb_true_iff in H. destruct H as [H H5].
-    apply andb_true_iff in H. destruct H as [H H4].
-    apply andb_true_iff in H. destruct H as [H H3].
-    apply andb_true_iff in H. destruct H as [H1 H2].
-    split; [destruct (b_taint b); [discriminate|reflexivity]|].
+    intros Hw H. unfold residual in H.
+    apply andb_true_iff in H. destruct H as [H1 H3].
+    apply negb_true_iff in H1. unfold b_write_taint in H1.
+    apply orb_false_iff in H1. destruct H1 as [H1 Tm]. apply orb_false_iff in H1. destruct H1 as [Tx Tp].
+    pose proof (b_write_ok_xwritable b bs Hw) as Xw.
+    destruct (b_write_ok_urls b bs Hw) as [Xu [Pu Mu]].
     split.
-    { unfold xs_ok. apply Forall_forall. intros x Hx. rewrite forallb_forall in H2. specialize (H2 x Hx).
-      apply andb_true_iff in H2. exact H2. }
-    split; [destruct (b_ver b), (b_primary b); try exact H3; try exact I; discriminate|].
-    split; [destruct (b_manifest b); [|exact I]; destruct (b_ver b); [split; [reflexivity|exact H4]|discriminate]|].
-    destruct (b_sigs b); [exact H5|exact I].
+    { unfold xs_ok. rewrite Forall_forall in *. intros x Hx. split; [apply Xw; exact Hx|].
+      destruct (Xu x Hx) as [F U]. apply index_decided; try assumption.
+      destruct (snd (index_url_ok (bx_url x))) eqn:S; [|reflexivity]. exfalso.
+      assert (E : existsb (fun x => snd (index_url_ok (bx_url x))) (b_exchanges b) = true).
+      { apply existsb_exists. exists x. split; assumption. }
+      congruence. }
+    split.
+    { unfold prim_cond. destruct (b_ver b); cbn [has_primary_in_header] in *.
+      - destruct (b_primary b) as [u|]; [|exact Pu]. destruct Pu as [F U]. apply any_decided; assumption.
+      - destruct (b_primary b) as [u|]; [|exact I]. destruct Pu as [F U]. apply abs_decided; assumption. }
+    split.
+    { unfold man_cond. destruct (b_manifest b) as [u|]; [|exact I]. destruct Mu as [V [F U]].
+      split; [exact V|]. apply abs_decided; assumption. }
+    destruct (b_sigs b); [exact H3|exact I].
   Qed.
 
   (* the meta data the reader ends up with *)
@@ -390,12 +415,12 @@ Section RT.
 
   (* ---- C03: the round trip ------------------------------------------------------------------------ *)
   Theorem bundle_roundtrip_gen (b : bundle) (bs : bytes) :
-    writable b = true -> sig_rt b -> b_write b = Ok bs -> lenN bs < two63 ->
+    residual b = true -> sig_rt b -> b_write b = Ok bs -> lenN bs < two63 ->
     b_read x509_ok bs = Ok (norm b).
   Proof.
     intros W Srt Hw L.
-    destruct (writable_parts b W) as [Tn [X [Hpc [Hmc _]]]].
-    apply b_write_ok_iff in Hw. destruct Hw as [ts [Hh [Ht [Hp [Hm E]]]]].
+    destruct (written_parts b bs Hw W) as [X [Hpc [Hmc _]]].
+    apply b_write_ok_iff in Hw. destruct Hw as [ts [Hh [_ [Ht [Hp [Hm E]]]]]].
     destruct (rows_of_pairs b ts Ht) as [tz [Etz [Ets Exr]]].
     pose proof E as E0. rewrite final_layout in E0.
     set (v := b_ver b) in *.
